@@ -25,4 +25,12 @@ OBLIGATIONS = [
              "test-vector failure or foreign version => UncoordinatedWriteError; otherwise failure only if fewer than k share numbers have "
              "a live writer, and then NotEnoughServersError",
         outside="update_goal / server selection; writers that answer synchronously; retry loops above Publish"),
+    chx("mdmf_writer_answer_passthrough", "C12_h", "h_mdmf_testv", timeout={"quick": 120, "thorough": 900},
+        desc="(harness shared with C12) real MDMFSlotWriteProxy.finish_publishing/_write through the real storage_client wrapper: the "
+             "server's answer (wrote, read data) - in particular a REFUSED write (wrote == False) - is handed unchanged to the publisher, "
+             "on the first and on later writes; publish_outcome assumes exactly this of its writers",
+        outside="see C12/mdmf_test_vector"),
+    chx("sdmf_writer_answer_passthrough", "C12_h", "h_sdmf_testv", timeout={"quick": 120, "thorough": 900},
+        desc="(harness shared with C12) real SDMFSlotWriteProxy.finish_publishing: one remote write whose answer is passed through unchanged",
+        outside="see C12/sdmf_test_vector"),
 ]
